@@ -39,16 +39,23 @@ def u1(ctx):
                               "every path to `%s` has completed the duplicate check" % node_desc(m),
                               "`%s` can be reached without the duplicate-UID check having completed" % node_desc(m)))
         # arguments: uid of the uploaded object, the target name
+        pos_ = [p for p in fi.params if p not in ("self", "cls")]
+        p_name_ = pos_[0] if pos_ else "name"
         for n, c in chk:
             a0 = c.args[0] if c.args else None
             a1 = c.args[1] if len(c.args) > 1 else None
             uid_ok = False
-            if isinstance(a0, ast.Name):
-                defs = du.reaching(n, a0.id)
-                srcs = [d for d in defs if not (isinstance(d.value, ast.Constant) and d.value.value is None)]
-                uid_ok = bool(srcs) and all(isinstance(d.value, ast.Call) and isinstance(d.value.func, ast.Attribute)
-                                            and d.value.func.attr == "get_uid" for d in srcs)
-            name_ok = isinstance(a1, ast.Name) and a1.id == "name"
+            if a0 is not None:
+                srcs = [o for o in origins(du, n, a0) if not o.is_none()]
+                uid_ok = bool(srcs) and all(o.kind == "expr" and not o.path and isinstance(o.leaf, ast.Call) and isinstance(o.leaf.func, ast.Attribute)
+                                            and o.leaf.func.attr == "get_uid" for o in srcs)
+            # the target name: the `name` argument, or the name generated for it (uuid + extension)
+            name_ok = False
+            if a1 is not None:
+                ns = origins(du, n, a1)
+                name_ok = bool(ns) and all((o.kind == "param" and o.name == p_name_ and not o.path)
+                                           or (o.kind == "expr" and o.leaf is not None and ("uuid" in src(o.leaf) or isinstance(o.leaf, ast.AugAssign)))
+                                           for o in ns)
             obs.append(ctx.ob(uid_ok and name_ok, fi.qualname, where(fi, n), "_check_duplicate(uid of upload, name)",
                               "checked uid comes from <file>.get_uid(), name is the target name",
                               "_check_duplicate is called with (%s, %s): not the uploaded object's UID / target name"
